@@ -692,7 +692,8 @@ fn main() {
             // emoji joined n - 1 times), alone and with text before and after it
             let marks = format!("a{}", "\u{301}".repeat(*n - 1));
             let joined = format!("😀{}", "\u{200d}😀".repeat(*n - 1));
-            for s in [marks.clone(), format!("xy{marks}"), format!("xy{marks}za"), joined.clone(), format!("a{joined}a")] {
+            // (and one repeated 2-, 3-, 4-byte character at every alignment relative to a byte offset)
+            for s in [marks.clone(), format!("xy{marks}"), format!("xy{marks}za"), joined.clone(), format!("a{joined}a")].into_iter().chain(tu_verif::enumerate::byte_aligned_texts(*n)) {
                 let p = Prepared::new(&s);
                 for ign in [false, true] {
                     for sub in bytes {
